@@ -22,7 +22,8 @@ SUITE = [PY, "-m", "pytest", "-q", "-p", "no:cacheprovider", "--timeout=900", "-
 
 def scratch(patch: str | None) -> str:
     d = tempfile.mkdtemp(prefix="seed-", dir="/dev/shm")
-    subprocess.run(["git", "-C", "/repo", "worktree", "add", "--detach", "-q", "-f", d + "/r", "HEAD"], check=True)
+    # SEED_BASE pins the commit a long batch runs against, so that a `fix:` commit made meanwhile does not move it
+    subprocess.run(["git", "-C", "/repo", "worktree", "add", "--detach", "-q", "-f", d + "/r", os.environ.get("SEED_BASE", "HEAD")], check=True)
     if patch:
         subprocess.run(["git", "-C", d + "/r", "apply", patch], check=True)
     return d
